@@ -1813,7 +1813,7 @@ def dask_groupby_agg(
     array, by = _unify_chunks(array, by)
 
     # tokenize here since by has already been hashed if its numpy
-    token = dask.base.tokenize(array, by, agg, expected_groups, axis, method)
+    token = dask.base.tokenize(array, by, agg, expected_groups, axis, method, reindex, engine, sort, fill_value)
 
     # preprocess the array:
     #   - for argreductions, this zips the index together with the array block
